@@ -1,5 +1,6 @@
 import Lean.Data.Json
 import EduceModel.Expand
+import EduceModel.Attr.ListParse
 /-
   JSON (vtool's oracle records) → `Attr.DeriveInput`, and the `expand` request of the driver.
 -/
@@ -63,10 +64,27 @@ def param (j : Json) : Param :=
 
 def params (j : Json) : List Param := (arr j).map param
 
+def seg (j : Json) : Seg :=
+  let k := str (fld j "k")
+  if k == "comma" then .comma
+  else if k == "unsafe" then .kwUnsafe
+  else if k == "unsafe_meta" then .unsafeItem (param (fld j "m"))
+  else if k == "meta" then .item (param (fld j "m")) ((opt (fld j "as_type")).map tyTree)
+  else if k == "type" then .ty (tyTree (fld j "t"))
+  else .other
+
+/-- The three readings of `Trait( .. )` are computed by the model of educe's list parsers (`Attr/ListParse.lean`) from
+    the elements of the list; the serializer only cuts the list into elements with syn's `Meta` / `Type` parsers. -/
+def listForm (j : Json) : MetaForm :=
+  let segs := (arr (fld j "segs")).map seg
+  let head : Option (Ty × List Seg) := (opt (fld j "head_type")).map fun h => (tyTree (fld h "t"), (arr (fld h "rest")).map seg)
+  .list (parseTerminated segs) (parseUnsafe segs) ((parseTyped head).map fun (t, ps) => (t.hashTy, ps))
+
 def traitMeta (j : Json) : TraitMeta :=
   let f := str (fld j "form")
   let mf : MetaForm :=
     if f == "nv" then .nv (val (fld j "v"))
+    else if f == "list" && (opt (fld j "segs")).isSome then listForm j
     else if f == "list" then
       .list ((opt (fld j "plain")).map params)
             ((opt (fld j "unsafe")).map fun u => (bool (fld u "has"), params (fld u "params")))
